@@ -19,7 +19,7 @@ POST = [" °C", " %", " degF"]
 
 def rand_src(rng, depth):
     if depth == 0 or rng.random() < 0.2:
-        return rng.choice(["a", "b", "2", "c", "'q'", "17"])
+        return rng.choice(["a", "b", "2", "c", "'q'", "17", "'caf\u00e9'", "'\u00c5ngstr\u00f6m'", "'5\" pipe'", "'a b'", "\u00b5"])
     r = rng.random()
     if r < 0.12:
         return "(%s%s)" % (rng.choice(UN), rand_src(rng, depth - 1))
